@@ -112,6 +112,7 @@ type State struct {
 	overOwn bool
 	pc      []*T
 	subst   map[*T]*T
+	bounds  map[*T][2]uint64 // unsigned [lo, hi] facts learned from branch conditions
 	memo    map[*T]*T
 	model   *Model
 	panic   *panicInfo
@@ -216,6 +217,12 @@ func (st *State) clone() *State {
 		n.subst[k] = v
 	}
 	n.memo = map[*T]*T{}
+	if len(st.bounds) > 0 {
+		n.bounds = make(map[*T][2]uint64, len(st.bounds)+2)
+		for k, v := range st.bounds {
+			n.bounds[k] = v
+		}
+	}
 	n.nondet = st.nondet[:len(st.nondet):len(st.nondet)]
 	st.nondet = st.nondet[:len(st.nondet):len(st.nondet)]
 	n.notes = st.notes[:len(st.notes):len(st.notes)]
@@ -285,12 +292,145 @@ func (st *State) learn(cj *T, val *T) {
 	if cj.Op == OVar && cj.W == 0 {
 		st.subst[cj] = val
 	}
+	if cj.Op == OUlt {
+		a, b := cj.A, cj.B
+		if val.IsTrue() { // a < b
+			if b.IsConst() && b.K > 0 {
+				st.setBound(a, 0, b.K-1)
+			} else if a.IsConst() && a.K < mask(a.W) {
+				st.setBound(b, a.K+1, mask(b.W))
+			}
+		} else { // a >= b
+			if b.IsConst() {
+				st.setBound(a, b.K, mask(a.W))
+			} else if a.IsConst() {
+				st.setBound(b, 0, a.K)
+			}
+		}
+	}
 	// ult(a,b)=false => ule(b,a) true is the same node via BNot canonical form; nothing else to learn
+}
+
+func (st *State) setBound(t *T, lo, hi uint64) {
+	if t.IsConst() {
+		return
+	}
+	if st.bounds == nil {
+		st.bounds = map[*T][2]uint64{}
+	}
+	b, ok := st.bounds[t]
+	if !ok {
+		b = [2]uint64{0, mask(t.W)}
+	}
+	if lo > b[0] {
+		b[0] = lo
+	}
+	if hi < b[1] {
+		b[1] = hi
+	}
+	st.bounds[t] = b
+}
+
+// rangeOf returns conservative unsigned bounds of t on this path.
+func (st *State) rangeOf(t *T) (uint64, uint64) {
+	if t.IsConst() {
+		return t.K, t.K
+	}
+	lo, hi := staticRange(t, 0)
+	if b, ok := st.bounds[t]; ok {
+		if b[0] > lo {
+			lo = b[0]
+		}
+		if b[1] < hi {
+			hi = b[1]
+		}
+	}
+	switch t.Op {
+	case OZExt:
+		l2, h2 := st.rangeOf(t.A)
+		if l2 > lo {
+			lo = l2
+		}
+		if h2 < hi {
+			hi = h2
+		}
+	case OIte:
+		l1, h1 := st.rangeOf(t.B)
+		l2, h2 := st.rangeOf(t.C)
+		if l2 < l1 {
+			l1 = l2
+		}
+		if h2 > h1 {
+			h1 = h2
+		}
+		if l1 > lo {
+			lo = l1
+		}
+		if h1 < hi {
+			hi = h1
+		}
+	case OAdd:
+		if t.B.IsConst() {
+			l2, h2 := st.rangeOf(t.A)
+			if h2+t.B.K >= h2 && h2+t.B.K <= mask(t.W) { // no wrap
+				if l2+t.B.K > lo {
+					lo = l2 + t.B.K
+				}
+				if h2+t.B.K < hi {
+					hi = h2 + t.B.K
+				}
+			}
+		}
+	}
+	return lo, hi
+}
+
+// foldBounds decides comparisons that the learned interval facts already settle.
+func (st *State) foldBounds(cond *T) *T {
+	c := st.e.ctx
+	switch cond.Op {
+	case OUlt:
+		la, ha := st.rangeOf(cond.A)
+		lb, hb := st.rangeOf(cond.B)
+		if ha < lb {
+			return c.True
+		}
+		if la >= hb {
+			return c.False
+		}
+	case OEq:
+		if cond.A.W > 0 {
+			la, ha := st.rangeOf(cond.A)
+			lb, hb := st.rangeOf(cond.B)
+			if ha < lb || hb < la {
+				return c.False
+			}
+		}
+	case OBNot:
+		r := st.foldBounds(cond.A)
+		if r != cond.A {
+			return c.BNot(r)
+		}
+	case OBAnd:
+		a, b := st.foldBounds(cond.A), st.foldBounds(cond.B)
+		if a != cond.A || b != cond.B {
+			return c.BAnd(a, b)
+		}
+	case OBOr:
+		a, b := st.foldBounds(cond.A), st.foldBounds(cond.B)
+		if a != cond.A || b != cond.B {
+			return c.BOr(a, b)
+		}
+	}
+	return cond
 }
 
 // decide returns the truth of cond on this path, forking if both are feasible.
 func (st *State) decide(cond *T) bool {
 	cond = st.simp(cond)
+	if cond.Op != OConst && len(st.bounds) > 0 {
+		cond = st.foldBounds(cond)
+	}
 	if cond.Op == OConst {
 		return cond.K != 0
 	}
